@@ -1,5 +1,7 @@
 import NA.Core.IOUtil
 import NA.Model.CryptoMapDev
+import NA.Proofs.VpnGraphFinal
+import NA.Proofs.VpnGraphRefs
 /-!
 Driver `nadrv-c10`: the crypto map models of `NA.Vpn` on one case per line.
 
@@ -85,9 +87,56 @@ def runMatch (a b : String) : String :=
   | some calls => "ok\t" ++ ";".intercalate (calls.map showCall)
   | none => "abort"
 
+/-! ### op G: named object graphs (`NA.Vpn.G`) — objects separated by \x01, fields by \x02, lines by \x03,
+sections by \x04 (`head \x05 mode \x05 subs`), sub-commands by \x06 (`key \x07 orig \x07 refkind \x07 refname`) -/
+
+def parseKind (s : String) : G.Kind :=
+  if s == "acl" then .acl else if s == "gp" then .gp else if s == "pool" then .pool
+  else if s == "tg" then .tg else if s == "user" then .user else .aaa
+
+def parseGSub (s : String) : G.Sub :=
+  match s.splitOn "\x07" with
+  | [key, orig, rk, rn] => { key := key, body := key.splitOn "$REF", orig := orig,
+                             ref := if rk.isEmpty then none else some (parseKind rk, rn) }
+  | _ => { key := "?" }
+
+def parseGSec (s : String) : G.Sec :=
+  match s.splitOn "\x05" with
+  | [head, mode, subs] => { head := head, mode := mode == "1", subs := (splitNE subs "\x06").map parseGSub }
+  | _ => { head := "?" }
+
+def parseGObj (s : String) : G.Obj :=
+  match s.splitOn "\x02" with
+  | [k, n, d, anc, ls, secs] =>
+    { kind := parseKind k, name := n, drc := (d == "1"), anchor := (anc == "1"),
+      lines := splitNE ls "\x03", secs := (splitNE secs "\x04").map parseGSec }
+  | _ => { kind := .aaa, name := "?" }
+
+def runGraph (fs : List String) : String :=
+  let a := (splitNE (field fs "a") "\x01").map parseGObj
+  let b := (splitNE (field fs "b") "\x01").map parseGObj
+  match G.run a b with
+  | some st =>
+    if st.outside then "outside" else
+    -- the model's script on the Lean device: accepted? equivalent to the target? unmanaged objects untouched? second run?
+    let tail := match G.execAll { objs := a } st.out with
+      | some d =>
+        "acc" ++ (if G.view d.objs == G.view b then "+conv" else "") ++
+          (if G.frame a d.objs == G.frame a a then "+frame" else "") ++ "\t" ++
+          (match G.script d.objs b with
+           | some ls => "|".intercalate ls
+           | none => "abort")
+      | none => "rej\t"
+    -- the decidable hypotheses of the C07 theorems with R = everything the device's anchors reach
+    let hyp := (if G.closedB (G.managedSet a) a && G.anchorsB (G.managedSet a) a && G.kindByKeyB a b then "+hyp" else "") ++
+      (if G.wfB a b && G.kindByKeyB a b then "+wf" else "")
+    "ok\t" ++ "|".intercalate (st.out.map G.Chg.render) ++ "\t" ++ tail.replace "\t" (hyp ++ "\t")
+  | none => "abort"
+
 def answer (line : String) : String :=
   match line.splitOn "\t" with
   | "E" :: fs => runEngine fs
+  | "G" :: fs => runGraph fs
   | ["M", a, b] => runMatch a b
   | _ => "bad-input"
 
